@@ -93,9 +93,9 @@ theorem inter_wf (x y z : Rect) (h : inter x y = some z) : z.WF := by
 
 /-! ### `_split` -/
 
-theorem split_cover (base rng : Rect) (hw : rng.WF) (p : Cell) :
-    Covered (split base rng) p ↔ rng.mem p ∧ ¬ base.mem p := by
-  unfold split Covered
+theorem splitRaw_cover (base rng : Rect) (hw : rng.WF) (p : Cell) :
+    Covered (splitRaw base rng) p ↔ rng.mem p ∧ ¬ base.mem p := by
+  unfold splitRaw Covered
   cases hi : inter base rng with
   | none =>
     have hn := (inter_none base rng).mp hi p
@@ -130,9 +130,9 @@ theorem split_cover (base rng : Rect) (hw : rng.WF) (p : Cell) :
             have : z.r2 ≠ rng.r2 := by omega
             simp [this]
 
-theorem split_wf (base rng : Rect) (hw : rng.WF) : ∀ q ∈ split base rng, q.WF := by
+theorem splitRaw_wf (base rng : Rect) (hw : rng.WF) : ∀ q ∈ splitRaw base rng, q.WF := by
   intro q hq
-  unfold split at hq
+  unfold splitRaw at hq
   cases hi : inter base rng with
   | none => rw [hi] at hq; simp at hq; subst hq; exact hw
   | some z =>
@@ -144,9 +144,8 @@ theorem split_wf (base rng : Rect) (hw : rng.WF) : ∀ q ∈ split base rng, q.W
     all_goals (split at hq <;> simp at hq)
     all_goals (subst hq; simp; omega)
 
-/-- the strips produced by `_split` never overlap: no cell is returned twice -/
-theorem split_disjoint (base rng : Rect) : (split base rng).Pairwise Disjoint := by
-  unfold split
+theorem splitRaw_disjoint (base rng : Rect) : (splitRaw base rng).Pairwise Disjoint := by
+  unfold splitRaw
   cases hi : inter base rng with
   | none => simp
   | some z =>
@@ -158,6 +157,178 @@ theorem split_disjoint (base rng : Rect) : (split base rng).Pairwise Disjoint :=
       (try (intros; omega)) <;> (try (refine ⟨?_, ?_⟩ <;> (try (intros; omega)))) <;>
       (try (refine ⟨?_, ?_⟩ <;> (try (intros; omega)))) <;>
       (try (refine ⟨?_, ?_⟩ <;> (try (intros; omega)))) <;> (try (intros; omega))
+
+/-! #### the strips the code cuts (`split`): sides compared after `or 1` -/
+
+/-- a cell of a sheet: rows and columns count from 1 (index 0 only occurs as the first index of a whole row / column) -/
+def Cell.Real (p : Cell) : Prop := 1 ≤ p.row ∧ 1 ≤ p.col
+
+/-- last row and last column at least 1, as in every rectangle the parser produces -/
+def Rect.Pos (a : Rect) : Prop := 1 ≤ a.r2 ∧ 1 ≤ a.c2
+
+theorem or1_eq (a b : Nat) : or1 a = or1 b ↔ (a = b ∨ (a = 0 ∧ b = 1) ∨ (a = 1 ∧ b = 0)) := by
+  unfold or1; split <;> split <;> omega
+
+theorem or1_ne_lo (z r : Nat) (h : r ≤ z) : or1 z ≠ or1 r ↔ (r < z ∧ 2 ≤ z) := by
+  rw [ne_eq, or1_eq]; omega
+
+theorem or1_ne_hi (z r : Nat) (h : z ≤ r) : or1 z ≠ or1 r ↔ (z < r ∧ 2 ≤ r) := by
+  rw [ne_eq, or1_eq]; omega
+
+theorem narrow_lo (z r : Nat) (h : r ≤ z) :
+    (r < z ∧ 2 ≤ z ∧ narrow z r = z) ∨ (z = r ∧ narrow z r = r) ∨ (r = 0 ∧ z = 1 ∧ narrow z r = r) := by
+  unfold narrow
+  by_cases e : or1 z ≠ or1 r
+  · rw [if_pos e]; rw [or1_ne_lo z r h] at e; exact Or.inl ⟨e.1, e.2, rfl⟩
+  · rw [if_neg e]; rw [or1_ne_lo z r h] at e
+    by_cases e2 : z = r
+    · exact Or.inr (Or.inl ⟨e2, rfl⟩)
+    · exact Or.inr (Or.inr ⟨by omega, by omega, rfl⟩)
+
+theorem narrow_hi (z r : Nat) (h : z ≤ r) :
+    (z < r ∧ 2 ≤ r ∧ narrow z r = z) ∨ (z = r ∧ narrow z r = r) ∨ (z = 0 ∧ r = 1 ∧ narrow z r = r) := by
+  unfold narrow
+  by_cases e : or1 z ≠ or1 r
+  · rw [if_pos e]; rw [or1_ne_hi z r h] at e; exact Or.inl ⟨e.1, e.2, rfl⟩
+  · rw [if_neg e]; rw [or1_ne_hi z r h] at e
+    by_cases e2 : z = r
+    · exact Or.inr (Or.inl ⟨e2, rfl⟩)
+    · exact Or.inr (Or.inr ⟨by omega, by omega, rfl⟩)
+
+theorem pairwise_four {α : Type} (R : α → α → Prop) (c1 c2 c3 c4 : Prop) [Decidable c1] [Decidable c2] [Decidable c3]
+    [Decidable c4] (x1 x2 x3 x4 : α) (h12 : c1 → c2 → R x1 x2) (h13 : c1 → c3 → R x1 x3) (h14 : c1 → c4 → R x1 x4)
+    (h23 : c2 → c3 → R x2 x3) (h24 : c2 → c4 → R x2 x4) (h34 : c3 → c4 → R x3 x4) :
+    ((if c1 then [x1] else []) ++ (if c2 then [x2] else []) ++ (if c3 then [x3] else []) ++
+      (if c4 then [x4] else [])).Pairwise R := by
+  by_cases a1 : c1 <;> by_cases a2 : c2 <;> by_cases a3 : c3 <;> by_cases a4 : c4 <;> simp [a1, a2, a3, a4] <;>
+    simp [a1, a2, a3, a4] at h12 h13 h14 h23 h24 h34 <;> simp [*]
+
+/-- the strips of `split`, one by one -/
+theorem mem_split (base rng z q : Rect) (hi : inter base rng = some z) :
+    q ∈ split base rng ↔
+      (or1 z.c1 ≠ or1 rng.c1 ∧ q = ⟨rng.sheet, rng.r1, rng.r2, rng.c1, z.c1 - 1⟩) ∨
+      (or1 z.c2 ≠ or1 rng.c2 ∧ q = ⟨rng.sheet, rng.r1, rng.r2, z.c2 + 1, rng.c2⟩) ∨
+      (or1 z.r1 ≠ or1 rng.r1 ∧ q = ⟨rng.sheet, rng.r1, z.r1 - 1, narrow z.c1 rng.c1, narrow z.c2 rng.c2⟩) ∨
+      (or1 z.r2 ≠ or1 rng.r2 ∧ q = ⟨rng.sheet, z.r2 + 1, rng.r2, narrow z.c1 rng.c1, narrow z.c2 rng.c2⟩) := by
+  unfold split
+  rw [hi]
+  simp only [List.mem_append, List.mem_ite_nil_right, List.mem_singleton, or_assoc]
+
+/-- the strips lie in `rng` and outside `base` -/
+theorem split_sub (base rng : Rect) (hw : rng.WF) (p : Cell) (h : Covered (split base rng) p) :
+    rng.mem p ∧ ¬ base.mem p := by
+  cases hi : inter base rng with
+  | none =>
+    unfold split Covered at h
+    rw [hi] at h
+    have hn := (inter_none base rng).mp hi p
+    simp only [List.mem_singleton, exists_eq_left] at h
+    exact ⟨h, fun hb => hn ⟨hb, h⟩⟩
+  | some z =>
+    obtain ⟨hs, hzs, hc1, hc2, hr1, hr2, hcc, hrr⟩ := inter_some base rng z hi
+    unfold Rect.WF at hw
+    obtain ⟨q, hq, hm⟩ := h
+    rw [mem_split base rng z q hi] at hq
+    have k1 : rng.c1 ≤ z.c1 := by omega
+    have k2 : z.c2 ≤ rng.c2 := by omega
+    have k3 : rng.r1 ≤ z.r1 := by omega
+    have k4 : z.r2 ≤ rng.r2 := by omega
+    rcases narrow_lo z.c1 rng.c1 k1 with ⟨n1a, n1c, n1b⟩ | ⟨n1a, n1b⟩ | ⟨n1a, n1c, n1b⟩ <;>
+    rcases narrow_hi z.c2 rng.c2 k2 with ⟨n2a, n2c, n2b⟩ | ⟨n2a, n2b⟩ | ⟨n2a, n2c, n2b⟩ <;>
+    (rw [n1b, n2b] at hq
+     unfold Rect.mem at hm ⊢
+     rw [or1_ne_lo z.c1 rng.c1 k1, or1_ne_hi z.c2 rng.c2 k2, or1_ne_lo z.r1 rng.r1 k3, or1_ne_hi z.r2 rng.r2 k4] at hq
+     rcases hq with ⟨hc, rfl⟩ | ⟨hc, rfl⟩ | ⟨hc, rfl⟩ | ⟨hc, rfl⟩ <;> simp only at hm <;> omega)
+
+theorem split_wf (base rng : Rect) (hw : rng.WF) : ∀ q ∈ split base rng, q.WF := by
+  intro q hq
+  cases hi : inter base rng with
+  | none => unfold split at hq; rw [hi] at hq; simp at hq; subst hq; exact hw
+  | some z =>
+    obtain ⟨hs, hzs, hc1, hc2, hr1, hr2, hcc, hrr⟩ := inter_some base rng z hi
+    rw [mem_split base rng z q hi] at hq
+    have k1 : rng.c1 ≤ z.c1 := by omega
+    have k2 : z.c2 ≤ rng.c2 := by omega
+    have k3 : rng.r1 ≤ z.r1 := by omega
+    have k4 : z.r2 ≤ rng.r2 := by omega
+    rcases narrow_lo z.c1 rng.c1 k1 with ⟨n1a, n1c, n1b⟩ | ⟨n1a, n1b⟩ | ⟨n1a, n1c, n1b⟩ <;>
+    rcases narrow_hi z.c2 rng.c2 k2 with ⟨n2a, n2c, n2b⟩ | ⟨n2a, n2b⟩ | ⟨n2a, n2c, n2b⟩ <;>
+    (rw [n1b, n2b] at hq
+     unfold Rect.WF at hw ⊢
+     rw [or1_ne_lo z.c1 rng.c1 k1, or1_ne_hi z.c2 rng.c2 k2, or1_ne_lo z.r1 rng.r1 k3, or1_ne_hi z.r2 rng.r2 k4] at hq
+     rcases hq with ⟨hc, rfl⟩ | ⟨hc, rfl⟩ | ⟨hc, rfl⟩ | ⟨hc, rfl⟩ <;> simp only <;> omega)
+
+/-- last row and column of every strip are at least 1 again -/
+theorem split_pos (base rng : Rect) (hb : base.Pos) (hp : rng.Pos) : ∀ q ∈ split base rng, q.Pos := by
+  intro q hq
+  cases hi : inter base rng with
+  | none => unfold split at hq; rw [hi] at hq; simp at hq; subst hq; exact hp
+  | some z =>
+    obtain ⟨hs, hzs, hc1, hc2, hr1, hr2, hcc, hrr⟩ := inter_some base rng z hi
+    rw [mem_split base rng z q hi] at hq
+    have k1 : rng.c1 ≤ z.c1 := by omega
+    have k2 : z.c2 ≤ rng.c2 := by omega
+    have k3 : rng.r1 ≤ z.r1 := by omega
+    have k4 : z.r2 ≤ rng.r2 := by omega
+    rcases narrow_lo z.c1 rng.c1 k1 with ⟨n1a, n1c, n1b⟩ | ⟨n1a, n1b⟩ | ⟨n1a, n1c, n1b⟩ <;>
+    rcases narrow_hi z.c2 rng.c2 k2 with ⟨n2a, n2c, n2b⟩ | ⟨n2a, n2b⟩ | ⟨n2a, n2c, n2b⟩ <;>
+    (rw [n1b, n2b] at hq
+     unfold Rect.Pos at hp hb ⊢
+     rw [or1_ne_lo z.c1 rng.c1 k1, or1_ne_hi z.c2 rng.c2 k2, or1_ne_lo z.r1 rng.r1 k3, or1_ne_hi z.r2 rng.r2 k4] at hq
+     rcases hq with ⟨hc, rfl⟩ | ⟨hc, rfl⟩ | ⟨hc, rfl⟩ | ⟨hc, rfl⟩ <;> simp only <;> omega)
+
+/-- the strips produced by `_split` never overlap: no cell is returned twice -/
+theorem split_disjoint (base rng : Rect) : (split base rng).Pairwise Disjoint := by
+  unfold split
+  cases hi : inter base rng with
+  | none => simp
+  | some z =>
+    obtain ⟨hs, hzs, hc1, hc2, hr1, hr2, hcc, hrr⟩ := inter_some base rng z hi
+    simp only
+    have k1 : rng.c1 ≤ z.c1 := by omega
+    have k2 : z.c2 ≤ rng.c2 := by omega
+    have k3 : rng.r1 ≤ z.r1 := by omega
+    have k4 : z.r2 ≤ rng.r2 := by omega
+    rcases narrow_lo z.c1 rng.c1 k1 with ⟨n1a, n1c, n1b⟩ | ⟨n1a, n1b⟩ | ⟨n1a, n1c, n1b⟩ <;>
+    rcases narrow_hi z.c2 rng.c2 k2 with ⟨n2a, n2c, n2b⟩ | ⟨n2a, n2b⟩ | ⟨n2a, n2c, n2b⟩ <;>
+    (rw [n1b, n2b]
+     apply pairwise_four
+     all_goals (intro a b p hp; (try rw [or1_ne_lo z.c1 rng.c1 k1] at a); (try rw [or1_ne_hi z.c2 rng.c2 k2] at a); (try rw [or1_ne_lo z.r1 rng.r1 k3] at a); (try rw [or1_ne_hi z.c2 rng.c2 k2] at b); (try rw [or1_ne_lo z.r1 rng.r1 k3] at b); (try rw [or1_ne_hi z.r2 rng.r2 k4] at b); unfold Rect.mem at hp; simp only at hp; omega))
+
+/-- **every cell of the sheet** that lies in `rng` and outside `base` is in a strip -/
+theorem split_cover_real (base rng : Rect) (hw : rng.WF) (hb : base.Pos) (p : Cell) (hp : p.Real)
+    (h : rng.mem p ∧ ¬ base.mem p) : Covered (split base rng) p := by
+  cases hi : inter base rng with
+  | none => unfold split Covered; rw [hi]; exact ⟨rng, by simp, h.1⟩
+  | some z =>
+    obtain ⟨hs, hzs, hc1, hc2, hr1, hr2, hcc, hrr⟩ := inter_some base rng z hi
+    unfold Rect.WF at hw
+    unfold Rect.Pos at hb
+    unfold Cell.Real at hp
+    obtain ⟨hm, hnb⟩ := h
+    unfold Covered
+    simp only [mem_split base rng z _ hi]
+    unfold Rect.mem at hm hnb
+    have k1 : rng.c1 ≤ z.c1 := by omega
+    have k2 : z.c2 ≤ rng.c2 := by omega
+    have k3 : rng.r1 ≤ z.r1 := by omega
+    have k4 : z.r2 ≤ rng.r2 := by omega
+    rcases narrow_lo z.c1 rng.c1 k1 with ⟨n1a, n1c, n1b⟩ | ⟨n1a, n1b⟩ | ⟨n1a, n1c, n1b⟩ <;>
+    rcases narrow_hi z.c2 rng.c2 k2 with ⟨n2a, n2c, n2b⟩ | ⟨n2a, n2b⟩ | ⟨n2a, n2c, n2b⟩ <;>
+    (rw [n1b, n2b]
+     rw [or1_ne_lo z.c1 rng.c1 k1, or1_ne_hi z.c2 rng.c2 k2, or1_ne_lo z.r1 rng.r1 k3, or1_ne_hi z.r2 rng.r2 k4]
+     by_cases h1 : p.col < z.c1
+     · exact ⟨_, Or.inl ⟨by omega, rfl⟩, by unfold Rect.mem; simp only; omega⟩
+     · by_cases h2 : z.c2 < p.col
+       · exact ⟨_, Or.inr (Or.inl ⟨by omega, rfl⟩), by unfold Rect.mem; simp only; omega⟩
+       · by_cases h3 : p.row < z.r1
+         · exact ⟨_, Or.inr (Or.inr (Or.inl ⟨by omega, rfl⟩)), by unfold Rect.mem; simp only; omega⟩
+         · exact ⟨_, Or.inr (Or.inr (Or.inr ⟨by omega, rfl⟩)), by unfold Rect.mem; simp only; omega⟩)
+
+/-- **one split step**, on the cells of the sheet: exactly `rng \ base` -/
+theorem split_cover (base rng : Rect) (hw : rng.WF) (hb : base.Pos) (p : Cell) (hp : p.Real) :
+    Covered (split base rng) p ↔ rng.mem p ∧ ¬ base.mem p :=
+  ⟨split_sub base rng hw p, split_cover_real base rng hw hb p hp⟩
 
 /-! ### `__add__` : bounding rectangle -/
 
@@ -312,91 +483,131 @@ theorem interAreas_covered (self other : List Rect) (p : Cell) :
 
 /-! ### `__sub__` -/
 
-theorem flatMap_split_inv (b : Rect) (stack : List Rect) (hw : ∀ q ∈ stack, q.WF)
+theorem flatMap_split_inv (b : Rect) (hb : b.Pos) (stack : List Rect) (hw : ∀ q ∈ stack, q.WF ∧ q.Pos)
     (hd : stack.Pairwise Disjoint) :
-    (∀ q ∈ stack.flatMap (split b), q.WF) ∧ (stack.flatMap (split b)).Pairwise Disjoint ∧
-    ∀ p, Covered (stack.flatMap (split b)) p ↔ Covered stack p ∧ ¬ b.mem p := by
-  refine ⟨?_, ?_, ?_⟩
+    (∀ q ∈ stack.flatMap (split b), q.WF ∧ q.Pos) ∧ (stack.flatMap (split b)).Pairwise Disjoint ∧
+    (∀ p, Covered (stack.flatMap (split b)) p → Covered stack p ∧ ¬ b.mem p) ∧
+    ∀ p, p.Real → (Covered (stack.flatMap (split b)) p ↔ Covered stack p ∧ ¬ b.mem p) := by
+  have hsub : ∀ p, Covered (stack.flatMap (split b)) p → Covered stack p ∧ ¬ b.mem p := by
+    intro p hc
+    rw [covered_flatMap] at hc
+    obtain ⟨r, hr, hc⟩ := hc
+    have := split_sub b r (hw r hr).1 p hc
+    exact ⟨⟨r, hr, this.1⟩, this.2⟩
+  refine ⟨?_, ?_, hsub, ?_⟩
   · intro q hq
     obtain ⟨r, hr, hq⟩ := List.mem_flatMap.mp hq
-    exact split_wf b r (hw r hr) q hq
+    exact ⟨split_wf b r (hw r hr).1 q hq, split_pos b r hb (hw r hr).2 q hq⟩
   · induction stack with
     | nil => simp
     | cons r st ih =>
       have ⟨h1, h2⟩ := List.pairwise_cons.mp hd
       simp only [List.flatMap_cons]
       rw [List.pairwise_append]
-      refine ⟨split_disjoint b r, ih (fun q hq => hw q (by simp [hq])) h2, ?_⟩
-      intro x hx y hy p ⟨hxp, hyp⟩
-      obtain ⟨r', hr', hy⟩ := List.mem_flatMap.mp hy
-      have hxr := ((split_cover b r (hw r (by simp)) p).mp ⟨x, hx, hxp⟩).1
-      have hyr := ((split_cover b r' (hw r' (by simp [hr'])) p).mp ⟨y, hy, hyp⟩).1
-      exact h1 r' hr' p ⟨hxr, hyr⟩
-  · intro p
+      refine ⟨split_disjoint b r, ih (fun q hq => hw q (by simp [hq])) h2 ?_, ?_⟩
+      · intro p hc
+        rw [covered_flatMap] at hc
+        obtain ⟨r', hr', hc⟩ := hc
+        have := split_sub b r' (hw r' (by simp [hr'])).1 p hc
+        exact ⟨⟨r', hr', this.1⟩, this.2⟩
+      · intro x hx y hy p ⟨hxp, hyp⟩
+        obtain ⟨r', hr', hy⟩ := List.mem_flatMap.mp hy
+        have hxr := (split_sub b r (hw r (by simp)).1 p ⟨x, hx, hxp⟩).1
+        have hyr := (split_sub b r' (hw r' (by simp [hr'])).1 p ⟨y, hy, hyp⟩).1
+        exact h1 r' hr' p ⟨hxr, hyr⟩
+  · intro p hp
+    refine ⟨hsub p, ?_⟩
+    rintro ⟨⟨r, hr, hm⟩, hnb⟩
     rw [covered_flatMap]
-    constructor
-    · rintro ⟨r, hr, hc⟩
-      have := (split_cover b r (hw r hr) p).mp hc
-      exact ⟨⟨r, hr, this.1⟩, this.2⟩
-    · rintro ⟨⟨r, hr, hm⟩, hnb⟩
-      exact ⟨r, hr, (split_cover b r (hw r hr) p).mpr ⟨hm, hnb⟩⟩
+    exact ⟨r, hr, split_cover_real b r (hw r hr).1 hb p hp ⟨hm, hnb⟩⟩
 
-theorem foldl_split_inv (base stack : List Rect) (hw : ∀ q ∈ stack, q.WF)
+theorem foldl_split_inv (base stack : List Rect) (hbp : ∀ q ∈ base, q.Pos) (hw : ∀ q ∈ stack, q.WF ∧ q.Pos)
     (hd : stack.Pairwise Disjoint) :
-    (∀ q ∈ base.foldl (fun st b => st.flatMap (split b)) stack, q.WF) ∧
+    (∀ q ∈ base.foldl (fun st b => st.flatMap (split b)) stack, q.WF ∧ q.Pos) ∧
     (base.foldl (fun st b => st.flatMap (split b)) stack).Pairwise Disjoint ∧
-    ∀ p, Covered (base.foldl (fun st b => st.flatMap (split b)) stack) p ↔
-      Covered stack p ∧ ¬ Covered base p := by
+    (∀ p, Covered (base.foldl (fun st b => st.flatMap (split b)) stack) p → Covered stack p ∧ ¬ Covered base p) ∧
+    ∀ p, p.Real → (Covered (base.foldl (fun st b => st.flatMap (split b)) stack) p ↔
+      Covered stack p ∧ ¬ Covered base p) := by
   induction base generalizing stack with
-  | nil => exact ⟨hw, hd, fun p => by simp [covered_nil]⟩
+  | nil => exact ⟨hw, hd, fun p h => ⟨h, covered_nil p⟩, fun p _ => by simp [covered_nil]⟩
   | cons b base ih =>
-    obtain ⟨w1, d1, c1⟩ := flatMap_split_inv b stack hw hd
-    obtain ⟨w2, d2, c2⟩ := ih (stack.flatMap (split b)) w1 d1
-    refine ⟨w2, d2, fun p => ?_⟩
-    simp only [List.foldl]
-    rw [c2 p, c1 p, covered_cons]
-    constructor
-    · rintro ⟨⟨h1, h2⟩, h3⟩; exact ⟨h1, fun h => h.elim h2 h3⟩
-    · rintro ⟨h1, h2⟩; exact ⟨⟨h1, fun h => h2 (Or.inl h)⟩, fun h => h2 (Or.inr h)⟩
+    obtain ⟨w1, d1, s1, c1⟩ := flatMap_split_inv b (hbp b (by simp)) stack hw hd
+    obtain ⟨w2, d2, s2, c2⟩ := ih (stack.flatMap (split b)) (fun q hq => hbp q (by simp [hq])) w1 d1
+    refine ⟨w2, d2, fun p h => ?_, fun p hp => ?_⟩
+    · simp only [List.foldl] at h
+      have h2 := s2 p h
+      have h1 := s1 p h2.1
+      exact ⟨h1.1, fun hc => ((covered_cons b base p).mp hc).elim h1.2 h2.2⟩
+    · simp only [List.foldl]
+      rw [c2 p hp, c1 p hp, covered_cons]
+      constructor
+      · rintro ⟨⟨h1, h2⟩, h3⟩; exact ⟨h1, fun h => h.elim h2 h3⟩
+      · rintro ⟨h1, h2⟩; exact ⟨⟨h1, fun h => h2 (Or.inl h)⟩, fun h => h2 (Or.inr h)⟩
 
-theorem subOne_inv (base : List Rect) (r0 : Rect) (hw : r0.WF) :
-    (∀ q ∈ subOne base r0, q.WF) ∧ (subOne base r0).Pairwise Disjoint ∧
-    ∀ p, Covered (subOne base r0) p ↔ r0.mem p ∧ ¬ Covered base p := by
-  obtain ⟨w, d, c⟩ := foldl_split_inv base [r0] (by simpa using hw) (by simp)
-  refine ⟨w, d, fun p => ?_⟩
-  unfold subOne
-  rw [c p]; simp [Covered]
+theorem subOne_inv (base : List Rect) (hbp : ∀ q ∈ base, q.Pos) (r0 : Rect) (hw : r0.WF ∧ r0.Pos) :
+    (∀ q ∈ subOne base r0, q.WF ∧ q.Pos) ∧ (subOne base r0).Pairwise Disjoint ∧
+    (∀ p, Covered (subOne base r0) p → r0.mem p ∧ ¬ Covered base p) ∧
+    ∀ p, p.Real → (Covered (subOne base r0) p ↔ r0.mem p ∧ ¬ Covered base p) := by
+  obtain ⟨w, d, s, c⟩ := foldl_split_inv base [r0] hbp (by simpa using hw) (by simp)
+  refine ⟨w, d, fun p h => ?_, fun p hp => ?_⟩
+  · have := s p h; simpa [Covered] using this
+  · unfold subOne
+    rw [c p hp]; simp [Covered]
 
-theorem subGo_inv (self other acc : List Rect) (done : List Rect) (hw : ∀ q ∈ self, q.WF)
+theorem subGo_inv (self other acc : List Rect) (done : List Rect) (hw : ∀ q ∈ self, q.WF ∧ q.Pos)
+    (hop : ∀ q ∈ other, q.Pos) (hap : ∀ q ∈ acc, q.Pos)
     (hd : acc.Pairwise Disjoint)
-    (hc : ∀ p, Covered acc p ↔ Covered done p ∧ ¬ Covered other p) :
+    (hs : ∀ p, Covered acc p → Covered done p ∧ ¬ Covered other p)
+    (hc : ∀ p, p.Real → (Covered acc p ↔ Covered done p ∧ ¬ Covered other p)) :
     (subGo self (other ++ acc) acc).Pairwise Disjoint ∧
-    ∀ p, Covered (subGo self (other ++ acc) acc) p ↔
-      (Covered done p ∨ Covered self p) ∧ ¬ Covered other p := by
+    (∀ p, Covered (subGo self (other ++ acc) acc) p → (Covered done p ∨ Covered self p) ∧ ¬ Covered other p) ∧
+    ∀ p, p.Real → (Covered (subGo self (other ++ acc) acc) p ↔
+      (Covered done p ∨ Covered self p) ∧ ¬ Covered other p) := by
   induction self generalizing acc done with
   | nil =>
-    refine ⟨hd, fun p => ?_⟩
-    simp only [subGo]; rw [hc p]; simp [covered_nil]
+    refine ⟨hd, fun p h => ?_, fun p hp => ?_⟩
+    · simp only [subGo] at h; have := hs p h; exact ⟨Or.inl this.1, this.2⟩
+    · simp only [subGo]; rw [hc p hp]; simp [covered_nil]
   | cons r0 rs ih =>
-    obtain ⟨w1, d1, c1⟩ := subOne_inv (other ++ acc) r0 (hw r0 (by simp))
+    have hbp : ∀ q ∈ other ++ acc, q.Pos := by
+      intro q hq; rcases List.mem_append.mp hq with hq | hq
+      · exact hop q hq
+      · exact hap q hq
+    obtain ⟨w1, d1, s1, c1⟩ := subOne_inv (other ++ acc) hbp r0 (hw r0 (by simp))
     have hd' : (acc ++ subOne (other ++ acc) r0).Pairwise Disjoint := by
       rw [List.pairwise_append]
       refine ⟨hd, d1, ?_⟩
       intro x hx y hy p ⟨hxp, hyp⟩
-      have := ((c1 p).mp ⟨y, hy, hyp⟩).2
+      have := (s1 p ⟨y, hy, hyp⟩).2
       exact this ((covered_append _ _ p).mpr (Or.inr ⟨x, hx, hxp⟩))
-    have hc' : ∀ p, Covered (acc ++ subOne (other ++ acc) r0) p ↔
-        Covered (done ++ [r0]) p ∧ ¬ Covered other p := by
-      intro p
-      rw [covered_append, covered_append, c1 p, covered_append, hc p]
+    have hap' : ∀ q ∈ acc ++ subOne (other ++ acc) r0, q.Pos := by
+      intro q hq; rcases List.mem_append.mp hq with hq | hq
+      · exact hap q hq
+      · exact (w1 q hq).2
+    have hs' : ∀ p, Covered (acc ++ subOne (other ++ acc) r0) p → Covered (done ++ [r0]) p ∧ ¬ Covered other p := by
+      intro p h
+      rcases (covered_append _ _ p).mp h with h | h
+      · have := hs p h
+        exact ⟨(covered_append _ _ p).mpr (Or.inl this.1), this.2⟩
+      · have := s1 p h
+        refine ⟨(covered_append _ _ p).mpr (Or.inr ⟨r0, by simp, this.1⟩), fun ho => this.2 ((covered_append _ _ p).mpr (Or.inl ho))⟩
+    have hc' : ∀ p, p.Real → (Covered (acc ++ subOne (other ++ acc) r0) p ↔
+        Covered (done ++ [r0]) p ∧ ¬ Covered other p) := by
+      intro p hp
+      rw [covered_append, covered_append, c1 p hp, covered_append, hc p hp]
       simp only [Covered, List.mem_singleton, exists_eq_left]
       grind
-    have := ih (acc ++ subOne (other ++ acc) r0) (done ++ [r0]) (fun q hq => hw q (by simp [hq])) hd' hc'
+    have := ih (acc ++ subOne (other ++ acc) r0) (done ++ [r0]) (fun q hq => hw q (by simp [hq])) hap' hd' hs' hc'
     simp only [subGo]
     rw [List.append_assoc]
-    refine ⟨this.1, fun p => ?_⟩
-    rw [this.2 p, covered_append, covered_cons]
-    simp only [Covered, List.mem_singleton, exists_eq_left]
-    grind
+    refine ⟨this.1, fun p h => ?_, fun p hp => ?_⟩
+    · have h2 := this.2.1 p h
+      rw [covered_append, covered_cons] at h2
+      rw [covered_cons]
+      simp only [Covered, List.mem_singleton, exists_eq_left] at h2 ⊢
+      grind
+    · rw [this.2.2 p hp, covered_append, covered_cons]
+      simp only [Covered, List.mem_singleton, exists_eq_left]
+      grind
 
 end XL
